@@ -395,3 +395,4 @@ Proof.
   intros Hw Hs. destruct s as [ch cu st wd rd w r h]. cbn in *. subst.
   unfold exec_write, write_start, step. cbn. destruct r; reflexivity.
 Qed.
+
